@@ -392,7 +392,14 @@ def _register(case, res):
 
     impl.__name__ = name
     try:
-        f = xl.register()(xlmod.validate_args(impl))  # package-level decorator
+        try:
+            # package-level decorator, as a user would write it
+            f = xl.register()(xlmod.validate_args(impl))
+        except Exception as err:  # noqa: BLE001
+            t = exc_tag(err)
+            res.fail('registration-exception:%s' % t[1],
+                     'function registered', t, name)
+            return res
         arg = {'native': 1, 'text': '1', 'Text': xl.Text('1'), 'bool': True,
                'None': None, 'lower': 1, 'sci': '1e0'}[sp]
         base = 0.0 if sp == 'None' else 1.0
